@@ -11,7 +11,7 @@ pub static DEF: PropDef = PropDef {
     id: "C11",
     level: "exploration",
     rule: "cases: files F from the container generator (with and without embedded streams, intact and damaged) x \
-capacity in {0, 1, |E|-1, |E|, |E|+1, |E|+k, 64 MiB, and the offsets of the last 6 chunk boundaries of E (+1 / -1)} where E = expand_zlib_chunks(F); plus a deterministic sweep of files whose expanded form has 2^k, 2^k+-1 (k=12..18; ..20 thorough) or 2/3/5 x 2^17 (+-1) bytes; and non-frames: empty input, 1-3 \
+capacity in {0, 1, |E|-1, |E|, |E|+1, |E|+k, 64 MiB, and the offsets of the last 6 chunk boundaries of E (+1 / -1)} where E = expand_zlib_chunks(F); plus 36 deterministic tiny files (0..12 bytes) with EVERY capacity 0..|E|+2; plus a deterministic sweep of files whose expanded form has 2^k, 2^k+-1 (k=12..18; ..20 thorough) or 2/3/5 x 2^17 (+-1) bytes; and non-frames: empty input, 1-3 \
 bytes, random bytes that start with neither a zstd nor a skippable-frame magic, strict prefixes of a valid frame, a \
 valid frame followed by trailing non-frame bytes. Oracle: capacity >= |E| => decompress_zstd(compress_zstd(F), capacity) \
 == Ok(F); capacity < |E| => Err; non-frame => Err; never a panic; never Ok(x) with x != F for an untouched frame. \
@@ -50,6 +50,10 @@ pub fn check_file(f: &[u8], k: usize, ctx: &mut Ctx) -> Result<(), Failure> {
     };
     let n = e.len();
     let mut caps: Vec<usize> = vec![0, 1, n.saturating_sub(1), n, n + 1, n + k.max(2), 64 << 20];
+    if n <= 24 {
+        // tiny expanded forms: every capacity
+        caps.extend(0..n + 3);
+    }
     // capacities that cut the expanded form exactly at (and next to) a chunk boundary: a prefix
     // that ends on a boundary is itself a well-formed shorter container
     if let Ok(chunks) = crate::model_container::parse_container(&e) {
@@ -273,6 +277,21 @@ fn size_sweep(ctx: &mut Ctx) {
 
 fn worker(ctx: &mut Ctx) {
     size_sweep(ctx);
+    // deterministic tiny files: expanded forms of 3..15 bytes, every capacity 0..|E|+2
+    for (i, f) in tiny_files().iter().enumerate() {
+        if i as u32 % ctx.cfg.nshards != ctx.cfg.shard {
+            continue;
+        }
+        let doc = json!({"kind":"c11-file","hex":hex(f),"k":2});
+        ctx.set_inflight(&doc);
+        ctx.class("file:tiny(0..12 bytes, deterministic)");
+        if let Err(fl) = check_file(f, 2, ctx) {
+            if !ctx.is_known(&fl) {
+                ctx.record_failure(&fl, &doc);
+            }
+            return;
+        }
+    }
     let cases = match ctx.cfg.tier {
         Tier::Quick => 24_000u64,
         Tier::Thorough => 400_000u64,
